@@ -1,6 +1,7 @@
 import KoordVerif.Common.Proto
 import KoordVerif.Model.C16
 import KoordVerif.Model.C16Arb
+import KoordVerif.Proofs.C16ExtArb
 /-
 Driver for C16.  Ops (one history per case; every token an integer, -1 = nil pointer):
 
@@ -25,7 +26,7 @@ Driver for C16.  Ops (one history per case; every token an integer, -1 = nil poi
   job <id> <pod> <ns> <phase> <passedAnn> <arbitrated> <waiting>          direct creation
   create <id> <pod>                     arbitrator.Filter then create+Add  -> filter <b>
   phase <id> <phase>                    status change + handler.Update     -> state block
-  round <nf> <failIds>* <no> <order>*   doOnceArbitrate                    -> state block
+  round <nf> <failIds>* <no> <order>*   doOnceArbitrate                    -> wf <hypothesis WF of round_inv on the state before> + state block
   state block: one line per job by id:  j <id> <phase> <passedAnn> <arbitrated> <waiting>
 -/
 namespace KoordVerif.C16
@@ -160,7 +161,7 @@ def runLine (d : DSt) (line : String) : DSt × List String :=
         | no :: order =>
           if order.length ≠ no.toNat then (d, ["bad-op"]) else
           let a' := round d.cfg fails d.arb (order.map Int.toNat)
-          ({ d with arb := a' }, stateBlock a')
+          ({ d with arb := a' }, s!"wf {b2i (wfB d.arb)}" :: stateBlock a')
         | [] => (d, ["bad-op"])
       | _, _ => (d, ["bad-op"])
 
